@@ -1,4 +1,4 @@
-package engines
+package partio
 
 import (
 	"bytes"
@@ -15,15 +15,16 @@ import (
 	"verif/harness/internal/memdev"
 )
 
-func init() { hx.Register("partio", partio) }
+// Run is the engine entry point.
+func Run(c *hx.Ctx) { partio(c) }
 
 // chunkReader returns data in the given piece sizes (a piece is further cut to len(b)).
 type chunkReader struct {
-	data   []byte
-	pieces []int
-	i      int
+	data        []byte
+	pieces      []int
+	i           int
 	eofWithData bool
-	got    []int // sizes actually returned (what the model is fed)
+	got         []int // sizes actually returned (what the model is fed)
 }
 
 func (c *chunkReader) Read(b []byte) (int, error) {
@@ -50,8 +51,8 @@ func (c *chunkReader) Read(b []byte) (int, error) {
 }
 
 type partGeom struct {
-	kind          string
-	lss, pss      int
+	kind           string
+	lss, pss       int
 	start, sizeSec uint64
 }
 
